@@ -1170,6 +1170,7 @@ def c04(tier, rng, fam='C04'):
             out.append(b.q().done())
     out += concurrent_header_and_send(fam, 10 if tier == 'quick' else 200)
     out += same_key_other_case(fam, 9 if tier == 'quick' else 90)
+    out += [x for x in unencodable_elsewhere(fam) if 'sets headers' in x['tag']]
     return out
 
 
